@@ -1463,7 +1463,11 @@ func (c *Ctx) checkDecodedSizeGuards(rule string) {
 				exact := (op == token.LSS && k == 0) || (op == token.GEQ && k == 0)
 				if !exact {
 					okAll = false
-					c.bad(rule, key, iff.Pos(), fmt.Sprintf("%s rejects sizes with `%s %d` instead of `< 0`: an empty list / string that the writer produced is refused by the reader", m, op, k), c.describe(iff))
+					pos := fn.Pos()
+					if ci, isI := iff.Cond.(ssa.Instruction); isI && ci.Pos().IsValid() {
+						pos = ci.Pos()
+					}
+					c.bad(rule, key, pos, fmt.Sprintf("%s rejects sizes with `%s %d` instead of `< 0`: an empty list / string that the writer produced is refused by the reader", m, op, k), c.describe(iff))
 				}
 			}
 			if nT > 0 {
